@@ -659,10 +659,25 @@ class FnTranslator:
         if isinstance(e, ast.Call) and isinstance(e.func, ast.Attribute) and e.func.attr == '_replace' \
                 and isinstance(e.func.value, ast.Name) and e.func.value.id == base and not e.args:
             kw = {}
+            stars = [k for k in e.keywords if k.arg is None]
             for k in e.keywords:
-                if k.arg is None or k.arg not in fields or k.arg in kw:
+                if k.arg is None:
+                    continue
+                if k.arg not in fields or k.arg in kw:
                     raise Refuse('%s: %s._replace with a field outside the declared record fields %s' % (self.rel, base, fields))
                 kw[k.arg] = k.value
+            if stars:
+                # [loop ties C06] `base._replace(f1=v1, .., fn=vn, **mapping)` with EVERY declared field given explicitly
+                # (spec: yield_record star=True): Python raises TypeError ("multiple values for keyword argument") when
+                # the mapping holds one of f1..fn -- an error path outside the translation, recorded -- so on every other
+                # path the declared fields of the yielded record are exactly v1..vn.  The fields NOT declared are then
+                # those of base._replace(**mapping), not necessarily base's: the reading says nothing about them.
+                if not rec.get('star') or len(stars) != 1 or any(f not in kw for f in fields):
+                    raise Refuse('%s: %s._replace with a **mapping (only with star=True and every declared field explicit)'
+                                 % (self.rel, base))
+                g = 'the mapping %s holds one of %s   (TypeError at %s)' % (ast.unparse(stars[0].value), fields, ast.unparse(e))
+                if g not in self.guards:
+                    self.guards.append(g)
             return [kw.get(f, attr(f)) for f in fields]
         raise Refuse('%s: the yielded value %s is not %s / %s._replace(...)' % (self.rel, ast.unparse(e), base, base))
 
@@ -1070,7 +1085,9 @@ class FnTranslator:
             envi[t.id] = (nm, 'Z')
         envi['yield__'] = ('(@nil (%s))' % ' * '.join(COQTY[t] for t in self.yield_types), 'Y')
         keys = self.assigned_keys(body, envi)
-        if keys is None or any(k != 'yield__' for k in keys):
+        # besides yielding, the body may bind names that are unbound before the loop: they live inside one pass (after
+        # the loop they are unbound in this reading -- Python keeps the last pass's value -- so a later read is refused)
+        if keys is None or any(k != 'yield__' and (k in env or k in [t.id for t in tg]) for k in keys):
             raise Refuse('%s: inner loop body that does more than yield (assigns %s)' % (self.rel, keys))
         lets, finals = self.branch_values(body, envi, ['yield__'])
         one = finals[0][0]
